@@ -27,7 +27,7 @@ func evalC17(c C17Case) *h.Finding {
 	class := c.Code / 100
 	if strings.Contains(c.Msg, "{E}") {
 		// a text line that begins with the very enhanced code the reply carries
-		own := map[string]string{"set": fmt.Sprintf("%d.7.1", class), "setbig": fmt.Sprintf("%d.999.509", class), "notset": fmt.Sprintf("%d.0.0", class), "none": "5.7.1", "plain": "4.0.0"}[c.Enh]
+		own := map[string]string{"set": fmt.Sprintf("%d.7.1", class), "setbig": fmt.Sprintf("%d.999.509", class), "mismatch": fmt.Sprintf("%d.2.2", 9-class), "notset": fmt.Sprintf("%d.0.0", class), "none": "5.7.1", "plain": "4.0.0"}[c.Enh]
 		if c.Enh == "plain" && c.Callback == "Data" {
 			own = "5.0.0"
 		}
@@ -42,6 +42,11 @@ func evalC17(c C17Case) *h.Finding {
 	case "setbig":
 		// subject and detail are not limited to three digits or to small numbers (RFC 3463: 1*3DIGIT each)
 		e := smtp.EnhancedCode{class, 999, 509}
+		berr = &smtp.SMTPError{Code: c.Code, EnhancedCode: e, Message: c.Msg}
+		wantEnh = e
+	case "mismatch":
+		// the class of the enhanced code need not be that of the reply code: it is passed on as the backend gave it
+		e := smtp.EnhancedCode{9 - class, 2, 2}
 		berr = &smtp.SMTPError{Code: c.Code, EnhancedCode: e, Message: c.Msg}
 		wantEnh = e
 	case "notset":
@@ -320,7 +325,7 @@ func C17(tier string) int {
 		}
 	}
 	recLines(nil)
-	run.Rule = fmt.Sprintf("reply codes %v x enhanced code {set (class.7.1), set with three-digit components (class.999.509; hand-picked messages), EnhancedCodeNotSet, NoEnhancedCode} x %d message shapes (hand-picked: empty, leading/trailing space, text that looks like an enhanced code, non-ASCII, 1-3 lines, empty middle line, blank; plus ALL messages of 1-3 lines over the line shapes {empty, 'x', ' x', 'x ', '5.1.1 y', blanks, tab, printf verbs, a line starting with the reply's own enhanced code}) x callback {NewSession, Mail, Rcpt, Data}, plus non-SMTPError errors per callback x message shapes; each a real-client <-> real-server conversation; plus the Data verdicts of TWO consecutive transactions on one connection, each via {DATA, BDAT LAST, two BDAT chunks} x 5 verdict shapes each x {first backend call reads the message, returns its error without reading} (scripted peer: the go-smtp client has no BDAT). Distinct by construction; non-trivial = all. Oracle: wire reply (strict parser) and the client's returned *SMTPError both equal the backend's error (X.0.0 for an unset code, zero value for NoEnhancedCode); other errors => 451 (envelope) / 554 (data) with their text.", codes, len(msgs))
+	run.Rule = fmt.Sprintf("reply codes %v x enhanced code {set (class.7.1), set with three-digit components (class.999.509; hand-picked messages), set with the other class (4.2.2 on a 5xx reply and vice versa), EnhancedCodeNotSet, NoEnhancedCode} x %d message shapes (hand-picked: empty, leading/trailing space, text that looks like an enhanced code, non-ASCII, 1-3 lines, empty middle line, blank; plus ALL messages of 1-3 lines over the line shapes {empty, 'x', ' x', 'x ', '5.1.1 y', blanks, tab, printf verbs, a line starting with the reply's own enhanced code}) x callback {NewSession, Mail, Rcpt, Data}, plus non-SMTPError errors per callback x message shapes; each a real-client <-> real-server conversation; plus the Data verdicts of TWO consecutive transactions on one connection, each via {DATA, BDAT LAST, two BDAT chunks} x 5 verdict shapes each x {first backend call reads the message, returns its error without reading} (scripted peer: the go-smtp client has no BDAT). Distinct by construction; non-trivial = all. Oracle: wire reply (strict parser) and the client's returned *SMTPError both equal the backend's error (X.0.0 for an unset code, zero value for NoEnhancedCode); other errors => 451 (envelope) / 554 (data) with their text.", codes, len(msgs))
 	run.Assumptions = []string{"NoEnhancedCode combined with text that itself parses as an enhanced code is inherently ambiguous on the wire: only the reply code is judged there", "a generic Data error may be prefixed ('Error: transaction failed: ')"}
 	var cases []C17Case
 	for _, cb := range []string{"NewSession", "Mail", "Rcpt", "Data"} {
@@ -332,6 +337,7 @@ func C17(tier string) int {
 			}
 			for _, m := range msgs[:nHand] {
 				cases = append(cases, C17Case{Callback: cb, Code: code, Enh: "setbig", Msg: m})
+				cases = append(cases, C17Case{Callback: cb, Code: code, Enh: "mismatch", Msg: m})
 			}
 		}
 		for _, m := range msgs {
